@@ -89,6 +89,8 @@ class Runner(object):
         self.ro_sweep = []
         self.reopen_sweep = False
         self.reopen_diffs = []
+        self.path_sweep = False
+        self.path_diffs = []
 
     def sha(self):
         import hashlib
@@ -101,6 +103,13 @@ class Runner(object):
         except Exception:
             pass
         self.check_ro_bytes()
+
+    def do_path_sweep(self):
+        """C05: an object reached through a link answers every read accessor like the object reached through its container"""
+        if self.path_sweep:
+            import accessors
+            n, diffs = accessors.path_sweep(self.f)
+            self.path_diffs.append({"step": self.step, "compared": n, "diffs": diffs[:5], "ndiffs": len(diffs)})
 
     def check_ro_bytes(self):
         """after a read-only session the bytes on disk must be what they were when it began"""
@@ -302,6 +311,7 @@ class Runner(object):
         if t == "reopen":
             auto = self.f.auto_update_timestamps
             before = None
+            self.do_path_sweep()
             if self.reopen_sweep:
                 import accessors
                 before = accessors.sweep(self.f)
@@ -1104,6 +1114,7 @@ def gen_history(seed, length, profile, workdir, with_times, k):
     r.track_pairs = bool(profile.get("track_pairs"))
     r.accessor_sweep = bool(profile.get("accessor_sweep"))
     r.reopen_sweep = bool(profile.get("reopen_sweep"))
+    r.path_sweep = bool(profile.get("path_sweep"))
     g = Gen(rnd, r, profile)
     ops = []
     results = []
@@ -1125,6 +1136,9 @@ def gen_history(seed, length, profile, workdir, with_times, k):
         op = ("reopen", True)
         ops.append(op)
         results.append(r.run_op(op))
+    r.step += 1
+    r.do_path_sweep()
+    r.step -= 1
     xfile = r.cross_file_phase(path + ".copy.nix") if profile.get("xfile") else None
     r.close()
     try:
@@ -1132,17 +1146,21 @@ def gen_history(seed, length, profile, workdir, with_times, k):
     except OSError:
         pass
     return {"xfile": xfile, "ops": ops, "results": results, "trace": r.trace, "ro_violations": r.ro_violations, "infos": r.infos, "target_ids": r.target_ids,
-            "ro_sweep": r.ro_sweep, "reopen_diffs": r.reopen_diffs, "walks": r.walks if profile.get("keep_walks") else None}
+            "ro_sweep": r.ro_sweep, "reopen_diffs": r.reopen_diffs, "path_diffs": r.path_diffs, "walks": r.walks if profile.get("keep_walks") else None}
 
 
 def replay_history(ops, workdir, with_times, k=0):
     path = os.path.join(workdir, "r%d.nix" % k)
     r = Runner(path, with_times)
     r.track_pairs = True
+    r.accessor_sweep = r.reopen_sweep = r.path_sweep = True
     results = []
     for op in ops:
         op = tuple(tuple(x) if isinstance(x, list) and x and isinstance(x[0], str) and x[0] in ("name", "pos", "obj", "idof") else x for x in op)
         results.append(r.run_op(op))
+    r.step += 1
+    r.do_path_sweep()
+    r.step -= 1
     xfile = r.cross_file_phase(path + ".copy.nix")
     r.close()
     try:
@@ -1150,7 +1168,8 @@ def replay_history(ops, workdir, with_times, k=0):
     except OSError:
         pass
     return {"xfile": xfile, "ops": ops, "results": results, "trace": r.trace, "walks": r.walks, "ro_violations": r.ro_violations,
-            "infos": r.infos, "target_ids": r.target_ids}
+            "infos": r.infos, "target_ids": r.target_ids, "ro_sweep": r.ro_sweep, "reopen_diffs": r.reopen_diffs,
+            "path_diffs": r.path_diffs}
 
 
 def main():
